@@ -57,6 +57,20 @@ CHECKS = {
              'failure); soundness of visited-state merging (canonical sampler+client state), cross-checked against '
              'unpruned trees. Real worker processes only in the thorough free-running cross-check.',
         design_ref='4 C04'),
+    'C05': dict(
+        level='model_checking',
+        technique='explicit-state BFS over run histories on one pool (fill, reruns with smaller/equal/larger budgets, store '
+                  'removal, node replacement, close+open, refused contexts) with canonical-state dedup; differential oracle '
+                  'against the pool-free run, operation call counters and pool-content recomputation in every state',
+        text='For every stored node set of the stated form, in-memory and on-disk pools, batch sizes and requested-output '
+             'sets, all histories up to depth 2 (3 thorough) after the filling run execute on the real sampler and pool; '
+             'each run must equal the pool-free run of the current model bit for bit, stored nodes must not be invoked for '
+             'held batches, the pool must hold exactly the consumed batches with freshly computed values, and contexts '
+             'with another batch_size/seed must be refused leaving the pool unchanged.',
+        note='Trusted: purity of seeded generation (C02) for the pool-free reference; documented workflow (stores of a '
+             'replaced node and its descendants are dropped). One open known finding (parameters loaded from the pool '
+             'while the simulator is recomputed).',
+        design_ref='4 C05'),
     'C06': dict(
         level='fault_enumeration',
         technique='BFS over all store operation histories up to depth d on the real NpyStore/ArrayPool with a '
